@@ -50,7 +50,7 @@ ASSUMPTIONS = [
     "ill-conditioned with respect to one-ulp differences in the frequency scale)",
     "dft on arrays longer than 512 samples is compared on a subset of coefficients passed through kscale",
 ]
-BUDGET = {"quick": 10000, "thorough": 160000}
+BUDGET = {"quick": 10000, "thorough": 240000}
 SHRINK = {"quick": True, "thorough": True}
 
 EPS = {"f8": float(np.finfo(np.float64).eps), "f4": float(np.finfo(np.float32).eps)}
@@ -427,7 +427,6 @@ def _run_conv(case, ctx):
     else:
         scale = scale[:, np.newaxis]
     tol = CONV_TOL_EPS * EPS[dt]
-    xin, win = x.copy(), w.copy()
 
     got = ctx.call(kfull, F.convolve, x, w)
     if got is not ctx.CRASH:
@@ -438,7 +437,7 @@ def _run_conv(case, ctx):
             err = float(np.max(np.abs(got[..., :L] - E) / scale))
             if got.shape[-1] > L:
                 err = max(err, float(np.max(np.abs(got[..., L:]) / scale)))
-            if not odd:
+            if err <= tol:  # margins of the cases that hold (a violation is reported by the check below)
                 ctx.stat(f"conv_full_err_in_eps_{dt}", err / EPS[dt])
             ctx.check(err <= tol, kfull, lambda: f"'full' differs from direct convolution by {err:.3g} x scale "
                                                  f"(tol {tol:.3g}); nsx={nsx} nsw={nsw} true padded size {pad}")
@@ -450,11 +449,10 @@ def _run_conv(case, ctx):
         if ctx.check(got.shape == Es.shape, ksame, lambda: f"'same' shape {got.shape}, expected {Es.shape}; nsx={nsx} "
                                                           f"nsw={nsw} true padded size {pad}"):
             err = float(np.max(np.abs(got - Es) / scale))
-            if not odd:
+            if err <= tol:
                 ctx.stat(f"conv_same_err_in_eps_{dt}", err / EPS[dt])
             ctx.check(err <= tol, ksame, lambda: f"'same' differs from the centred slice of the direct convolution by "
                                                  f"{err:.3g} x scale (tol {tol:.3g}); nsx={nsx} nsw={nsw} padded {pad}")
-    ctx.check(np.array_equal(x, xin) and np.array_equal(w, win), "C18.convolve_mutates_input", "inputs were modified")
 
 
 # ---- one length: fscale, freduce/fexpand, dft, filters ---------------------------------------------
@@ -764,13 +762,11 @@ def _run_cos(case, ctx):
         ctx.label("cos_2d")
     bounds = np.array([b0, b1]) if case["arr"] else [b0, b1]
     ctx.label("cos_int" if case["int"] else "cos_float", "cos_bounds_array" if case["arr"] else "cos_bounds_list")
-    xin = xs.copy()
     y = ctx.call("C18.cosine", lambda: U.fcn_cosine(bounds)(xs))
     if y is ctx.CRASH:
         return
     if not ctx.check(np.shape(y) == xs.shape, "C18.cosine", lambda: f"output shape {np.shape(y)} != input {xs.shape}"):
         return
-    ctx.check(np.array_equal(xs, xin), "C18.cosine_mutates_input", "fcn_cosine modified its argument")
     yf, xf = np.asarray(y, dtype=float).ravel(), xs.ravel()
     below, above = xf <= b0, xf >= b1
     ctx.check(np.all(np.abs(yf[below]) <= 1e-15), "C18.cosine", lambda: f"not 0 at or below the lower bound {b0}")
